@@ -168,6 +168,19 @@ def run_pyvc(cfg, rep, tier):
     modnames = list(cfg.HARNESS_MODULES)
     _load(modnames)
     keys = [k for k in api.HARNESSES if k[0] == cfg.PROP] + [tuple(k) for k in getattr(cfg, "EXTRA_HARNESSES", [])]
+    # mechanical scan: loop contracts that state their own heap effect (ghost_havoc) are exempt from the dynamic frame check
+    trusted_frames = []
+    for mname in modnames:
+        try:
+            src = open(os.path.join(VERIF, mname.replace(".", "/") + ".py")).read()
+            k = src.count("ghost_havoc=")
+            if k:
+                trusted_frames.append("%s (%d)" % (mname, k))
+        except OSError:
+            pass
+    if trusted_frames:
+        rep.assumptions.append("loop contracts that state the loop's heap effect themselves (ghost_havoc) are trusted with it, the dynamic "
+                               "frame check of pyvc does not apply to them: " + ", ".join(trusted_frames))
     timeout_ms = 30000 if tier == "quick" else 120000
     tasks = []
     expected_headers = load_loop_headers(cfg.PROP)
